@@ -132,10 +132,15 @@ def histories(ctx, n, lines, pending):
         hist = []
         last_indexed = None
         indexed_size = None         # size of the data file when an index was last saved for it
+        held = b''                  # bytes cut off the end of the file by 'cut-tail', still to arrive ('uncut')
         for step in range(rng.choice([3, 4, 5, 6])):
             op = rng.choice(['open', 'open', 'open', 'open-max-bytes', 'append-msg', 'append-junk', 'truncate-data',
-                             'truncate-data-at-message', 'truncate-index', 'replace-data', 'empty-data'])
-            if step == 0 and hi % 3 == 0:
+                             'truncate-data-at-message', 'truncate-index', 'replace-data', 'empty-data', 'cut-tail', 'uncut'])
+            # a log that is still being written: indexed while its last message lacks its final k bytes (k = 1, 2, 3, ...),
+            # opened again once those bytes (or some of them) have arrived - the growth is smaller than any message
+            if hi % 4 == 1 and step < 4:
+                op = ['cut-tail', 'open', 'uncut', 'open'][step]
+            elif step == 0 and hi % 3 == 0:
                 op = 'open-max-bytes'       # a byte-limited open of a log that has no index yet ...
             elif step == 1 and hi % 3 == 0:
                 op = 'open'                 # ... followed by a normal open
@@ -151,6 +156,20 @@ def histories(ctx, n, lines, pending):
                 if offs:
                     o = rng.choice(offs)
                     cur = cur[:o + ic.valid_at(cur, o)]
+            elif op == 'cut-tail':
+                ends = [o + ic.valid_at(cur, o) for o in range(len(cur)) if ic.valid_at(cur, o)]
+                if ends:
+                    e = max(ends)
+                    k = rng.choice([1, 1, 2, 2, 3, 3, 4, 5, 23, 24, 25])
+                    k = min(k, e)
+                    held = cur[e - k:e]
+                    cur = cur[:e - k]
+                    op = 'cut-tail=%d' % k
+            elif op == 'uncut':
+                j = len(held) if rng.random() < 0.7 else rng.randrange(len(held) + 1)
+                cur = cur + held[:j]
+                held = held[j:]
+                op = 'uncut=%d' % j
             elif op == 'empty-data':
                 cur = b''
             elif op == 'replace-data':
